@@ -376,7 +376,17 @@ def _index(rest, term):
     return [(0, (("[]", term.site[0], term.site[1]),) + rest, IDENT)]
 
 
+def _from_residual(rest, term):
+    # the value built from a residual is always the failure variant
+    if rest[:1] in ((("v", "Ok"),), (("v", "Some"),), (("v", "Continue"),)):
+        return "DEAD"
+    if rest[:2] == (("v", "Ready"), ("f", "0")) and rest[2:3] == (("v", "Ok"),):
+        return "DEAD"
+    return None
+
+
 TRANSFORMERS = [
+    (r"^std::ops::FromResidual::from_residual$", _from_residual),
     (r"^std::ops::Try::branch$", _try_branch),
     (r"^(futures::Future|std::future::Future|core::future::Future)::poll$", _poll),
     (r"^std::future::IntoFuture::into_future$", _id()),
@@ -650,6 +660,8 @@ class BodyIndex:
         crossed = False
         if tr is not None:
             res = tr(tuple(rest), term)
+            if res == "DEAD":
+                return
             if res:
                 for (ai, npath, lv) in res:
                     if lv <= level and ai < len(term.args):
@@ -933,6 +945,15 @@ class Program:
             for blk, t in b.calls():
                 if blk.i in cfg.live():
                     yield b, blk, t
+
+    def local_calls(self, lf):
+        """(body, block, term, callee LogicalFn) for direct calls to crate fns (polls excluded)."""
+        for b, blk, t in self.call_sites(lf):
+            if t.callee is None or _is_poll(t.callee):
+                continue
+            g = self.callee_fn(t)
+            if g is not None:
+                yield b, blk, t, g
 
     def callers_of(self, lf):
         out = []
